@@ -243,8 +243,55 @@ func expectedPeerForwarding(c *an.Check) {
 			}
 		}
 		if !found {
+			// the TLS configuration may be built by a private helper that receives the expected peer as an argument
+			if viaHelper(p, f, pi, cfp, 0) {
+				found = true
+				n++
+			}
+		}
+		if !found {
 			bad = name + " never builds a TLS configuration for the expected peer"
 		}
 	}
 	c.Require(bad == "" && n >= 6, "CALLARG", "quic session helpers forward the expected remote peer to the TLS identity check", nil, "", n, "DialSession*/ListenSession/BuildIncomingTlsConf → ConfigForPeer(expected peer)", bad)
+}
+
+// viaHelper: f passes its parameter #pi to an unexported same-package helper that hands the corresponding parameter on to
+// target as the last argument (directly or through one more such helper).
+func viaHelper(p *an.Prog, f *ssa.Function, pi int, target an.Callee, depth int) bool {
+	if depth > 2 {
+		return false
+	}
+	for _, g := range an.WithClosures(f) {
+		for _, b := range g.Blocks {
+			for _, ins := range b.Instrs {
+				call, ok := ins.(*ssa.Call)
+				if !ok {
+					continue
+				}
+				h := call.Call.StaticCallee()
+				if h == nil || h.Pkg == nil || h.Pkg != f.Pkg || len(h.Blocks) == 0 || h.Parent() != nil {
+					continue
+				}
+				if n := h.Name(); n == "" || !(n[0] >= 'a' && n[0] <= 'z') {
+					continue
+				}
+				for j, a := range call.Call.Args {
+					if !(an.IsParam(a, pi) && a.Parent() == f) || j >= len(h.Params) {
+						continue
+					}
+					for _, hc := range an.Calls(h, target) {
+						args := an.CallArgs(hc.Common())
+						if len(args) > 0 && args[len(args)-1] == ssa.Value(h.Params[j]) {
+							return true
+						}
+					}
+					if viaHelper(p, h, j, target, depth+1) {
+						return true
+					}
+				}
+			}
+		}
+	}
+	return false
 }
